@@ -439,6 +439,17 @@ _run_clauses = run
 def run(prog, rep):
     _run_clauses(prog, rep)
     from plint.wiring import check_zero_init
+    from plint.wiring import array_bounds
+    _bu = prog.unit("psocketaddress.c")
+    _bj, _bb = 0, []
+    for _f in sorted(_bu.functions.values(), key=lambda f__: f__.loc[0]):
+        _a, _b = array_bounds(_f)
+        _bj += _a
+        _bb += [(_f,) + x for x in _b]
+    rep.ob("C17.1", _bb[0][0] if _bb else sorted(_bu.functions.values(), key=lambda f__: f__.loc[0])[0], "bounds", not _bb,
+           "%d subscripts of fixed-size arrays with a known largest index stay inside their arrays" % _bj if not _bb else
+           "line %d: %s has %d elements and is subscripted with an index that reaches %d in %s" % (line(_bb[0][1]), _bb[0][2], _bb[0][3], _bb[0][4], _bb[0][0].name),
+           _bb[0][1] if _bb else sorted(_bu.functions.values(), key=lambda f__: f__.loc[0])[0].loc[0])
     check_zero_init(rep, "C17.2", prog, ['psocketaddress.c'], 1)
 
 # generic robustness battery: renaming every local/parameter in these files must not change any verdict
